@@ -190,6 +190,8 @@ func opStream(pi *pkgInfo, c *Cmd) {
 						// a decoder that has lost its place may loop over a garbage count: keep the trace finite
 						if logged < 2000 {
 							emit(&Event{Ev: "sread", Cid: c.Cid, M: m, Res: "nil", Req: ip(req), Got: ip(got)})
+						} else if logged == 2000 {
+							emit(&Event{Ev: "sabort", Cid: c.Cid, M: m, Res: "nil"})
 						}
 						logged++
 					}
